@@ -55,6 +55,18 @@ Theorem C10_ingress_file_name_refuted :
 Proof. exact ingress_file_name_refuted. Qed.
 Print Assumptions C10_ingress_file_name_refuted.
 
+(* REFUTED (F95): DNS-legal names exist whose file names exceed NAME_MAX (255 bytes): the file cannot be
+   created at all (the real LocalManager then ends the process).  All theorems below are about the
+   naming schemes as functions on strings; on the real file system they apply to names that fit. *)
+Theorem C10_file_name_length_refuted :
+  exists ns name,
+    dns1123_label ns = true /\ dns1123_subdomain name = true /\
+    Nat.ltb 255 (String.length (conf_path (vs_file ns name))) = true /\
+    Nat.ltb 255 (String.length (conf_path (ts_file ns name))) = true /\
+    Nat.ltb 255 (String.length (conf_path (ingress_file ns name))) = true.
+Proof. exact file_name_length_refuted. Qed.
+Print Assumptions C10_file_name_length_refuted.
+
 (* ... and at the level of histories: some served Ingress ends up without a file. *)
 Theorem C10_ingress_collision_refuted :
   exists evs r i,
@@ -155,6 +167,28 @@ Theorem C10_passthrough_stale_refuted :
     ~ hosts_exact (hosts (dk (run_events false evs world0))) (spec_events evs []).
 Proof. exact passthrough_stale_refuted. Qed.
 Print Assumptions C10_passthrough_stale_refuted.
+
+(* ---------- namespace life cycle (-watch-namespace-label) ---------- *)
+
+(* FULL STATEMENT (false, see C10_unwatched_namespace_refuted): after the task of a namespace that lost its label
+   nothing of that namespace stays configured.
+   PROVED PART: when every configured object of the namespace is still in the informer store at that moment. *)
+Theorem C10_unwatched_namespace_cleanup_partial :
+  forall (ns : string) (st : nstate),
+    mem_s ns (n_labelled st) = false -> mem_s ns (n_watched st) = true ->
+    (forall c, In c (n_cfg st) -> o_ns c = ns -> existsb (is_obj (o_kind c) (o_ns c) (o_name c)) (n_store st) = true) ->
+    (forall c, In c (n_cfg (nsync (TNs ns) st)) -> o_ns c <> ns) /\
+    mem_s ns (n_watched (nsync (TNs ns) st)) = false.
+Proof. exact ns_cleanup_complete_partial. Qed.
+Print Assumptions C10_unwatched_namespace_cleanup_partial.
+
+(* REFUTED (F96): an object deleted while the namespace task is still queued stays configured. *)
+Theorem C10_unwatched_namespace_refuted :
+  exists evs o,
+    n_cfg (nrun evs (nstate0 ["apps"])) = [o] /\ n_store (nrun evs (nstate0 ["apps"])) = [] /\
+    n_watched (nrun evs (nstate0 ["apps"])) = [] /\ In (NDel (o_kind o) (o_ns o) (o_name o)) evs.
+Proof. exact ns_delete_behind_refuted. Qed.
+Print Assumptions C10_unwatched_namespace_refuted.
 
 (* ---------- the file operations of the manager ---------- *)
 
